@@ -1,8 +1,9 @@
 (** C14 — the convenience methods of the Go client (MessageHeader.GetMessage / GetSource / Delete on the i-th entry of a listing, Message.GetSource / Delete), which go through an id taken from a first answer, return and effect exactly what their names say — on every well-formed store, for names as in client_roundtrip whose canonical mailbox name addresses itself *)
 From IV Require Import Base.Bytes Model.StoreSpec Model.Rest Proofs.StoreSpecFacts Proofs.RestRoute Proofs.RestClient Proofs.RestConv.
-Theorem client_convenience_effect : forall mfa cfg base st op mb,
+Theorem client_convenience_effect : forall mfa cfg srcok base st op mb,
+  (forall m k, srcok m k = true) ->
   conv_op op = true -> good_name (cop_name op) -> op_id_ok op -> Forall good_seg base ->
   mfa (cop_name op) = Some mb -> good_name mb -> mfa mb = Some mb -> SInv st ->
-  spec_cop mfa cfg st op = Some (client_do mfa cfg base (join_slash base) st op).
+  spec_cop mfa cfg st op = Some (client_do mfa cfg srcok base (join_slash base) st op).
 Proof. exact RestConv.client_convenience_effect. Qed.
 Print Assumptions client_convenience_effect.
